@@ -326,6 +326,10 @@ fn n_threads() -> usize {
         })
 }
 
+pub fn write_violation_file(prop: &str, case: &Value, f: &Failure) -> PathBuf {
+    write_violation(prop, case, f)
+}
+
 fn write_violation(prop: &str, case: &Value, f: &Failure) -> PathBuf {
     let dir = verif_root().join("out").join("violations");
     let _ = std::fs::create_dir_all(&dir);
